@@ -30,6 +30,8 @@ SMT_FAIL = (
     ('precondition', 'precondition'),
 )
 
+NOT_SMT = ('disambiguate by wrapping', 'is not supported', 'cannot call function', 'cannot find', 'expected ')
+
 _PROPLABEL = re.compile(r'^((?:C\d{2,3})(?:\+C\d{2,3})*)\.')
 _TRAIL_LABEL = re.compile(r'//\s*\[([^\]]+)\]\s*$')
 
@@ -200,6 +202,8 @@ def run_unit(unit_name, repo='/repo', rlimit=None, twins=True, extra_args=(), ta
             if pat in msg:
                 kind = k
                 break
+        if any(x in msg for x in NOT_SMT):
+            kind = None          # a front-end (syntax / mode) error that merely mentions a contract word
         spans = d.get('spans', [])
         metas = []
         for sp in spans:
